@@ -26,8 +26,8 @@ ASSUMPTIONS = ['files are sequences of complete declarations (split points are d
 MIN_EVENTS = {'quick': {'splits': 80, 'script_runs': 40, 'submodule_comparisons': 80},
               'thorough': {'splits': 1500, 'script_runs': 600, 'submodule_comparisons': 1500}}
 # flagged input classes (known findings); switched on by probes when the finding is marked fixed
-FLAG_LINE_COMMENT_END = False   # D15
-FLAG_OMIT_IGNORE = False        # D16
+FLAG_LINE_COMMENT_END = True    # file ending in a line comment without newline (D15, repaired)
+FLAG_OMIT_IGNORE = True         # --ignore omitted (D16, repaired)
 ENDS = ['\n', '', ' ', '\n\n', ' /* tail */', '\t\n', '  // trailing line comment\n', '\n// comment line of its own\n', ' // c\n\n']
 
 
